@@ -70,14 +70,16 @@ def encode(enc, data, members=1):
     raise KeyError(enc)
 
 
-def header_enc(enc):
-    return {"rawdeflate": "deflate"}.get(enc, enc)
+def header_enc(enc, spelling=None):
+    """Content codings are case-insensitive (RFC 9110 8.4.1): `spelling` picks how the token is written."""
+    tok = {"rawdeflate": "deflate"}.get(enc, enc)
+    return {"upper": tok.upper(), "title": tok.title()}.get(spelling, tok)
 
 
-def frame(framing, enc, blob, nchunks=2):
+def frame(framing, enc, blob, nchunks=2, spelling=None):
     head = b"HTTP/1.1 200 OK\r\n"
     if enc != "identity":
-        head += b"Content-Encoding: " + header_enc(enc).encode() + b"\r\n"
+        head += b"Content-Encoding: " + header_enc(enc, spelling).encode() + b"\r\n"
     if framing == "length":
         return head + b"Content-Length: %d\r\n\r\n" % len(blob) + blob
     if framing == "chunked":
@@ -101,7 +103,7 @@ class Scen:
         self.limit = case["limit"]
         self.want = PLAIN[case["body"]]
         blob = encode(case["enc"], self.want, case.get("members", 1))
-        self.stream = frame(case["framing"], case["enc"], blob, case.get("nchunks", 2))
+        self.stream = frame(case["framing"], case["enc"], blob, case.get("nchunks", 2), case.get("spelling"))
         self.proto = ResponseHandler(loop)
         self.sink = SinkProtocol()
         self.ct, self.st = pair(loop, self.proto, self.sink)
@@ -285,6 +287,9 @@ def cases(quick):
             add("mixed", enc, framing, 16, "readchunk", nchunks=3)
         add("text", enc, "chunked", 2, "read1", nchunks=3)
         add("bomb", enc, "eof", 4096, "readall")
+    for enc in ENCS[1:]:
+        for spelling in ("upper", "title"):
+            add("text", enc, "length", 16, "readany", spelling=spelling)
     for framing in ("length", "chunked", "eof"):
         add("text", "gzip", framing, 16, "readany", members=3)
         add("bomb", "gzip", framing, 4096, "idle-readn", members=2)
